@@ -45,7 +45,8 @@ CHECKS = {
             'element; all arrays <= 3 (4) over 31 tag-letter-bearing values; '
             'every nesting depth 1..130 (200) in four list/dict patterns '
             '(acceptance required to 32, round trip required for whatever is '
-            'accepted beyond).',
+            'accepted beyond); every Unicode code point alone / first / last in '
+            'strings and field names.',
             TB, '3/C03'),
     'C04': ('E1', 'explicit-state enumeration (C01+C02+C03+C18 spaces); '
             'byte-for-byte comparison with an independent reference encoder',
@@ -63,7 +64,9 @@ CHECKS = {
             'generated from the grammar, decoded by the reference decoder '
             'and by the library, results compared; tag L with the top bit '
             'set is held to one reading at every position and array length '
-            '(differential oracle).', TB, '3/C05'),
+            '(differential oracle); every Unicode code point in long strings, '
+            'field names and string arguments; tag-fill mixed arrays.', TB,
+            '3/C05'),
     'C06': ('E2', 'explicit-state exploration of the receive loop: all frame '
             'sequences <= n over K_seq x all (consumed, received) states; '
             'envelope invariant over all E4 inputs',
@@ -97,14 +100,17 @@ CHECKS = {
             'field rewrites, truncations, small strings in envelopes, header '
             'shapes', MC + 'C09: every input of the E4 fault spaces either '
             'decodes or raises UnmarshalingException; truncations, short '
-            'strings and header shapes again with debug logging on.', TB,
+            'strings and header shapes again with debug logging on, '
+            'representative frames and truncations with warnings raised as '
+            'errors.', TB,
             '3/C09'),
     'C10': ('E1', 'explicit-state enumeration: every public encoder and '
             'every argument of every class x adversarial value alphabets; '
             'oracle raise-or-round-trip', MC + 'C10: every encoder entry '
             'point x adversarial values (out-of-range, wrong type, non-'
             'finite, oversize, falsy non-dicts, non-boolean bits, buffer '
-            'objects with items wider than a byte): the call '
+            'objects with items wider than a byte or several dimensions, all '
+            '2048 lone surrogates): the call '
             'raises or its output decodes to the normalised input and leaves '
             'every other argument unchanged; dense sweeps: every integer '
             '-66000..66000 and +-300 around 2^31/32/63/64 through 8 integer '
@@ -147,7 +153,9 @@ CHECKS = {
     'C14': ('E1', 'complete enumeration of a finite catalogue against a '
             'transcribed specification table', MC + 'C14: every fact of all '
             '64 classes and Basic.Properties (1600+ facts) compared with the '
-            'spec table, statically and behaviourally.', TB, '3/C14'),
+            'spec table, statically and behaviourally, and again after '
+            'applications defined subclasses of every class and unknown '
+            'method ids were decoded.', TB, '3/C14'),
     'C15': ('E1', 'configuration enumeration: one fresh process per TZ '
             'setting x instants incl. every DST transition x input forms; '
             'per-child reference check + identical result digests',
@@ -163,16 +171,22 @@ CHECKS = {
             'event histories <= depth (fresh import each) vs fresh-'
             'interpreter baselines; preemption-bounded exhaustive thread '
             'schedule exploration (line-level scheduling points)',
-            MC + 'C16: BFS over 63 API events (incl. environment changes: '
-            'decimal context, debug logging; mid-container failures; poison '
-            'then repair of kept objects; deep copies; base classes first) '
+            MC + 'C16: BFS over 69 API events (incl. environment changes: '
+            'decimal context, debug logging, warnings as errors; mid-'
+            'container failures; poison then repair of kept objects; deep '
+            'copies; base classes and application subclasses first), each '
+            'history in a forked child of a pristine process, '
             'with a deep library-state '
             'hash closes at 2 states; all histories of depth <= 2, all '
             'a;b;a, all depth-3 over 16 core events (thorough: all depth 3) '
             'replayed from a fresh import and compared per event with a '
             'fresh-interpreter baseline, aliasing oracle on returned '
             'objects (a library reference to a returned object counts only '
-            'with an observable consequence); 18 thread harnesses, every '
+            'with an observable consequence); same-thread re-entrancy (8 '
+            'outer x 8 inner calls nested at every point where the encoder '
+            'runs application code); 25 thread harnesses incl. refused-vs-'
+            'served calls and cache pressure, library locks made scheduler-'
+            'aware, a post-probe after every schedule, every '
             'schedule with <= 2 (3) '
             'preemptions at source-line granularity from a warm library and '
             '<= 1 from a freshly imported one, results equal the '
@@ -265,7 +279,10 @@ def main():
         'checks': checks,
         'not_applicable': na,
         'notes': 'All checks run on /repo\'s working tree via ./check; '
-                 'evidence is rewritten on every run. See DESIGN.md.',
+                 'evidence is rewritten on every run. When pamqp/*.py holds '
+                 'an assert statement or uses __debug__, every check is run a '
+                 'second time in an interpreter started with -O. See '
+                 'DESIGN.md.',
     }
     for e in manifest['engines']:
         e['serves_properties'] = [c['property_id'] for c in checks
